@@ -2419,9 +2419,14 @@ def gen_C17(rng):
                     o = rng.choice(old)
                     ctx.emit("attached %s" % o)
                     ctx.emit("apply %s %s union %s %s" % (ctx.fresh("x"), fname, o, e))
-                    if rng.random() < 0.5:
+                    r2 = rng.random()
+                    if r2 < 0.4:
                         ctx.emit("release %s" % o)
                         old.remove(o)
+                    elif r2 < 0.7:
+                        ctx.emit("reattach %s %s" % (o, fname))
+                        old.remove(o)
+                        edges[o] = fname
                     ctx.emit("show %s" % e)
                     ctx.emit("audit %s" % fname)
             elif r < 0.7:
@@ -2451,6 +2456,17 @@ def gen_C17(rng):
                     if live:
                         o = rng.choice(live)
                         ctx.emit("apply %s %s union %s %s" % (ctx.fresh("x"), edges[o], g, o))
+                    if forests and rng.random() < 0.6:
+                        # the same edge object is attached to a surviving forest: it must be that
+                        # forest's transparent edge and hold no reference there
+                        tf = rng.choice(list(forests))
+                        ctx.emit("reattach %s %s" % (g, tf))
+                        edges[g] = tf
+                        ctx.emit("audit %s" % tf)
+                        if rng.random() < 0.5:
+                            ctx.emit("release %s" % g)
+                            del edges[g]
+                            ctx.emit("audit %s" % tf)
             elif r < 0.88 and len(doms) > 1:
                 dname = rng.choice(list(doms))
                 ctx.emit("destroydomain %s" % dname)
